@@ -317,7 +317,7 @@ func (s *supOFO) childTerminated(name gen.Atom, pid gen.PID, reason error) supAc
 	action.reason = ErrSupervisorRestartsExceeded
 	s.wait = wait
 	s.shutdown = true
-	s.shutdownReason = reason
+	s.shutdownReason = action.reason
 
 	return action
 }
